@@ -294,12 +294,6 @@ def specs(w, avoid_copy_shadow: bool = False):
                         ids = gen.Ids()
                         spec = gen.hier_program(ids, rng, shape, kind, is_async, inv_prob=0.3, max_conj=2,
                                                 allow_reject=(variant == 2), avoid_mixed=False, avoid_copy_shadow=avoid_copy_shadow)
-                        # now and then a foreign decorator above the contracts of an overriding member
-                        if rng.random() < 0.3:
-                            for c in spec["classes"]:
-                                for m in c["members"]:
-                                    if m["decos"] and rng.random() < 0.5 and m["kind"] == "method":
-                                        m["decos"].append(["foreign", "F" + m["name"] + c["name"]])
                         yield (str(shape), kind, is_async, variant), spec
         # constructors
         for shape in shapes:
